@@ -20,7 +20,7 @@ UpgFew  == {<<>>, << <<"websocket">> >>, << <<"h2c", "WebSocket">> >>, << <<"h2c
 Methods == {"GET", "POST", "HEAD", "get"}
 Protos  == {"1.0", "1.1", "2.0"}
 Versions == {"13", "8", "", "missing"}
-Keys == {"ok16", "ok16spaces", "short", "long", "nonb64", "missing", "twoLines", "empty", "commaJoined", "dec14", "dec15", "dec17", "dec18", "ok16nopad", "ok16urlsafe", "ok16noncanon"}
+Keys == {"ok16", "ok16spaces", "short", "long", "nonb64", "missing", "twoLines", "empty", "commaJoined", "blankThenOk", "okThenBlank", "spacesThenOk", "dec14", "dec15", "dec17", "dec18", "ok16nopad", "ok16urlsafe", "ok16noncanon"}
 SubTok == {"a", "b", "A"}
 SubLists == {<<>>} \cup Seq12(SubTok)
 C11Product == { [Base EXCEPT !.method = m, !.proto = p, !.conn = c, !.upg = u, !.version = v, !.key = k] :
@@ -90,7 +90,7 @@ RConn == {<<>>, << <<"Upgrade">> >>, << <<"upgrade">> >>, << <<"keep-alive">> >>
 RUpg  == {<<>>, << <<"websocket">> >>, << <<"WebSocket">> >>, << <<"h2c">> >>}
 C13Set == { [resp |-> [status |-> st, conn |-> c, upg |-> u, accept |-> a, sub |-> sb, ext |-> x], requested |-> rq, mode |-> m] :
                       st \in {101, 200, 400, 500}, c \in RConn, u \in RUpg, a \in {"correct", "otherkey", "missing", "casechanged"},
-                      sb \in {"", "a", "b", "A"}, rq \in {<<>>, <<"a">>, <<"a", "b">>},
+                      sb \in {"", "a", "b", "A", "b, a", "b|a"}, rq \in {<<>>, <<"a">>, <<"a", "b">>},
                       x \in (IF Big THEN RespAlphabet ELSE {<<>>, <<PMD(<<>>)>>, << [name |-> "x-foo", params |-> <<>>] >>, <<PMD(<<P("unknown_param", "")>>)>>,
                                                <<PMD(<<P("client_max_window_bits", "15")>>)>>, <<PMD(<<P("client_max_window_bits", "10")>>)>>, <<PMD(<<P("server_max_window_bits", "10")>>)>>,
                                                <<PMD(<<P("server_max_window_bits", "10"), P("server_max_window_bits", "12")>>)>>}),
@@ -137,7 +137,7 @@ RowInv ==
                                               /\ \A j \in 1..(i-1) : \A k \in 1..Len(x.offered) : ~EqFold(x.supported[j], x.offered[k]))
          /\ (d.upgrade /\ d.sub = "" => \A i \in 1..Len(x.supported) : \A k \in 1..Len(x.offered) : ~EqFold(x.supported[i], x.offered[k]))
     [] Mode = "c12" -> Glob(x[1], x[2]) = GlobNFA(x[1], x[2])
-    [] Mode = "c13" -> (VerifyResponse(x.resp, x.requested, x.mode) = "accept" => x.resp.status = 101 /\ x.resp.accept = "correct" /\ (x.resp.sub = "" \/ \E i \in 1..Len(x.requested) : x.requested[i] = x.resp.sub))
+    [] Mode = "c13" -> (VerifyResponse(x.resp, x.requested, x.mode) = "accept" => x.resp.status = 101 /\ x.resp.accept = "correct" /\ (x.resp.sub = "" \/ \E i \in 1..Len(x.requested) : x.requested[i] = Selected(x.resp.sub)))
     [] Mode = "c14srv" ->
          LET sel == ServerSelect(x[1], x[2])  f == FirstOK(x[1]) IN
          /\ sel.on = (x[2] # "off" /\ f # 0)                                   \* falls back to the first acceptable offer, else none
